@@ -914,6 +914,101 @@ fn c13_lists(rep: &Reporter, p: &Pos, lists_run: &AtomicU64) {
     }
 }
 
+/// One BOARD OBJECT over a whole session: at every ply of a line (a) every pseudo-legal but illegal
+/// move is requested through `make_uci` and must be refused with the position unchanged, (b) for
+/// every legal move m the list [m, <its first legal reply>, nonsense] goes through `make_all_uci`
+/// and must be rolled back, (c) every legal move must be found by `find_uci` and rendered by
+/// `uci_to_pgn`, (d) the chosen move is played through `make_uci` and the position compared with
+/// the reference successor. What a refused request leaves behind shows a ply or two later, when
+/// the other side moves onto the squares that were tried. Returns the number of API calls.
+pub fn c13_board_session(rep: &Reporter, root: &Pos, rule: u64, plies: usize) -> u64 {
+    let fen = root.to_fen();
+    let mut calls = 0u64;
+    let r = guarded(|| -> Option<(String, Value)> {
+        let mut b = board_from_pos(root).ok()?;
+        let mut p = root.clone();
+        let mut played: Vec<String> = Vec::new();
+        for ply in 0..plies {
+            if p.half + 4 > 4095 {
+                break;
+            }
+            let legal = p.legal();
+            if legal.is_empty() {
+                break;
+            }
+            let before = snap(&b);
+            // (a) refused single requests
+            for m in p.pseudo_legal() {
+                if legal.iter().any(|l| l.uci() == m.uci()) {
+                    continue;
+                }
+                calls += 1;
+                let u = m.uci();
+                if b.make_uci(&u).is_ok() {
+                    return Some(("session:accepts_illegal_move".into(), json!({"at_ply": ply, "played": played, "request": u})));
+                }
+                if snap(&b) != before {
+                    return Some(("session:refused_request_changes_the_position".into(), json!({"at_ply": ply, "played": played, "request": u, "diff": before.diff(&snap(&b))})));
+                }
+            }
+            // (b) rolled back lists
+            for m in &legal {
+                let q = p.make(m);
+                let mut l = vec![m.uci()];
+                if let Some(reply) = q.legal().first() {
+                    l.push(reply.uci());
+                }
+                l.push("a1a1".to_string());
+                calls += 1;
+                if b.make_all_uci(&l).is_ok() {
+                    return Some(("session:accepts_list_with_impossible_move".into(), json!({"at_ply": ply, "played": played, "list": l})));
+                }
+                if snap(&b) != before {
+                    return Some(("session:rolled_back_list_changes_the_position".into(), json!({"at_ply": ply, "played": played, "list": l, "diff": before.diff(&snap(&b))})));
+                }
+            }
+            // (c) every legal move is still known
+            for m in &legal {
+                let u = m.uci();
+                calls += 2;
+                if b.find_uci(&u).is_err() {
+                    return Some(("session:find_uci_refuses_legal_move".into(), json!({"at_ply": ply, "played": played, "request": u, "position": p.to_fen()})));
+                }
+                if b.uci_to_pgn(&u).is_err() {
+                    return Some(("session:uci_to_pgn_refuses_legal_move".into(), json!({"at_ply": ply, "played": played, "request": u, "position": p.to_fen()})));
+                }
+            }
+            if snap(&b) != before {
+                return Some(("session:lookup_changes_the_position".into(), json!({"at_ply": ply, "played": played, "diff": before.diff(&snap(&b))})));
+            }
+            // (d) one move is played
+            let cands: Vec<&Mv> = legal.iter().filter(|m| p.make(m).has_legal_move()).collect();
+            if cands.is_empty() {
+                break;
+            }
+            let rm = *cands[((ply as u64 + 1).wrapping_mul(rule).wrapping_add(rule >> 3) % cands.len() as u64) as usize];
+            let u = rm.uci();
+            calls += 1;
+            if b.make_uci(&u).is_err() {
+                return Some(("session:make_uci_refuses_legal_move".into(), json!({"at_ply": ply, "played": played, "request": u, "position": p.to_fen()})));
+            }
+            p = p.make(&rm);
+            played.push(u);
+            let got = snap(&b).to_pos();
+            if got != p {
+                return Some(("session:wrong_successor".into(), json!({"at_ply": ply, "played": played, "expected": p.to_fen(), "actual": got.to_fen()})));
+            }
+        }
+        None
+    });
+    match r {
+        Ok(Some((sig, detail))) => rep.report(sig, json!({"kind": "board_session", "fen": fen, "rule": rule, "plies": plies, "detail": detail})),
+        Ok(None) => {}
+        Err(m) => rep.report(format!("panic:board_session:{}", short(&m)), json!({"kind": "board_session", "fen": fen, "rule": rule, "plies": plies, "panic": m})),
+    }
+    calls
+}
+
 pub fn run_c13(tier: Tier) -> i32 {
     let started = Instant::now();
     let rep = Reporter::new("C13");
@@ -974,6 +1069,7 @@ pub fn run_c13(tier: Tier) -> i32 {
     let classes: [AtomicU64; 3] = Default::default();
     let lists_run = AtomicU64::new(0);
     let foreign_calls = AtomicU64::new(0);
+    let session_calls = AtomicU64::new(0);
     let t0 = Instant::now();
     let n_mal_positions = if tier == Tier::Quick { 12 } else { 60 };
     let idx: Vec<usize> = (0..positions.len()).collect();
@@ -993,6 +1089,9 @@ pub fn run_c13(tier: Tier) -> i32 {
             c13_foreign_moves(&rep, p, &foreign_calls);
         }
         long_list_check(&rep, p, &lists_run);
+        for rule in [7u64, 1_000_003] {
+            session_calls.fetch_add(c13_board_session(&rep, p, rule, if tier == Tier::Quick { 6 } else { 16 }), Ordering::Relaxed);
+        }
     });
     // the position command of the engine is a caller of make_all_uci: a rejected move list after an
     // accepted position must leave the engine on the accepted one (all-or-nothing, observed through
@@ -1010,6 +1109,7 @@ pub fn run_c13(tier: Tier) -> i32 {
     cov.set("malformed_strings", json!(malformed.len()));
     cov.set("off_board_square_strings_per_position", json!(offboard.len()));
     cov.set("to_pgn_string_calls_with_moves_generated_on_other_boards", json!(foreign_calls.load(Ordering::Relaxed)));
+    cov.set("board_sessions", json!({"what": "one board object over a line: refused requests, rolled back lists, lookups of every legal move, one move played — at every ply", "sessions": positions.len() * 2, "api_calls": session_calls.load(Ordering::Relaxed)}));
     cov.set("positions_with_malformed_sweep", json!(n_mal_positions.min(positions.len())));
     cov.set("legal_strings_judged", json!(classes[0].load(Ordering::Relaxed)));
     cov.set("pseudo_legal_but_illegal_strings_judged", json!(classes[1].load(Ordering::Relaxed)));
@@ -1047,6 +1147,10 @@ pub fn replay_c13(case: &Value) -> i32 {
         "long_move_list" => {
             let n = AtomicU64::new(0);
             long_list_check(&rep, &p, &n);
+        }
+        "board_session" => {
+            let n = c13_board_session(&rep, &p, case["rule"].as_u64().unwrap_or(7), case["plies"].as_u64().unwrap_or(6) as usize);
+            println!("one board over a line of up to {} plies from {}: {} API calls", case["plies"], fen, n);
         }
         "foreign_move" => {
             // the whole (small) family of this position is re-run; the case names the first failure
